@@ -646,7 +646,17 @@ def string_flag_table(helper, pname):
     return tab, bool({"to_lowercase", "to_ascii_lowercase"} & set(ms))
 
 
-def modifier_dispatch(src, file, lp, avar):
+def local_fns(src, file, name, encl=None):
+    """private helper fns called `name` visible from a fn of `file`: free / inherent fns of the file and fn items nested inside
+    the enclosing fn `encl` (a helper declared inside the function that uses it is the same helper)"""
+    out = [it for (f, s, tr, it, t) in src.fns if f == file and not t and tr is None and it["name"] == name]
+    if encl is not None:
+        out += [n for n in find_all(encl, lambda n: n.get("k") == "fn" and n is not encl and n.get("name") == name and n.get("body"))
+                if not any(n is o for o in out)]
+    return out
+
+
+def modifier_dispatch(src, file, lp, avar, encl=None):
     """The modifier table of the attribute loop of Key::from_str, decided on what it maps and not on where it is written:
     (A) `match <attr chain> { "name" => acc |= FLAG, .., other => <key name> }`, or (B) a same-file helper
     `fn(&str) -> Option<KeyMod>` holding the string match, consumed by `match helper(<attr chain>) { Some(f) => acc |= f, None => <key name> }`,
@@ -690,7 +700,7 @@ def modifier_dispatch(src, file, lp, avar):
         if e is None or e.get("k") != "call" or not is_path(e["f"]):
             return None
         name = e["f"]["p"].split("::")[-1]
-        cands = [it for (f, s, tr, it, t) in src.fns if f == file and not t and tr is None and it["name"] == name]
+        cands = local_fns(src, file, name, encl)
         if len(cands) != 1:
             return None
         for i, a in enumerate(e["args"]):
@@ -1380,7 +1390,7 @@ def run(ctx):
                 raise NotUnderstood("Key::from_str does not iterate string.split(<char>)")
             key_split = chr(lp["iter"]["args"][0]["v"])
             avar = lp["pat"]["name"]
-            key_lower, mod_parse, key_default = modifier_dispatch(src, KEYS, lp, avar)
+            key_lower, mod_parse, key_default = modifier_dispatch(src, KEYS, lp, avar, encl=key_from)
             if key_default is None:
                 raise NotUnderstood("no key-name arm")
         except NotUnderstood as e:
